@@ -27,6 +27,9 @@ RULE = (
     "against the blocks sorted by (interval address, offset), functions_by_block against functionBlocks, the three "
     "return-edge queries against a scan of ir.cfg, every referent against the module's blocks/proxies"
     "; chains of adjacent whole-block deletions whose first block carries several labels; a committed witness of a patch that switches sections"
+    "; retarget_symbol_uses registered in the same context (one at a time: a context of its own, last); batches whose last request in address order "
+    "names an undefined symbol: refused both ways before that request touches the module, the CFG, symbols, proxies and function tables left behind "
+    "are compared"
 )
 ASSUMPTIONS = [
     "the one-at-a-time run applies the requests in apply()'s own order (block address, offset, insertions first, registration order); a request's original (block, offset) is translated to the block that now holds that byte (for an insertion at the end of a block: the block that now ends there); request sets in which a block is wholly deleted and also receives other requests, and sets whose ranges no longer lie in one block after earlier requests, are not compared",
@@ -245,6 +248,21 @@ def check_case(ctx, case):
                 ctx.violation("C09:refused-one-way", "batch: %s; one at a time: %s" % (err, err2), case)
         else:
             ctx.count("refused-both")
+            if err.split(":")[0] == err2.split(":")[0] == "UndefSymbolError":
+                # the same request is refused both ways before it touches the module (its patch does not assemble): the
+                # requests in front of it were carried out, and the module left behind is the same either way
+                ctx.count("compared-after-refusal")
+                c1, _ = irdump.canon(norm_names(irdump.dump_ir(B.m, irdump.IdMap())))
+                c2, _ = irdump.canon(norm_names(irdump.dump_ir(B2.m, irdump.IdMap())))
+                # (a refused apply() leaves the byte intervals split, one per group of blocks: offsets inside
+                # intervals are not comparable; edges, symbols, proxies and the function tables are)
+                keep = lambda c: {"cfg": c.get("cfg"), "syms": c.get("syms"), "proxies": c.get("proxies"),  # noqa: E731
+                                  "functions": c.get("functions")}
+                c1, c2 = keep(c1), keep(c2)
+                if c1 != c2:
+                    ctx.violation("C09:" + (SIG_DETACHED_PATCH_BLOCKS if other_section else "refused-batch-differs-from-sequential"),
+                                  "a batch refused at its last request (%s) leaves another module than the same requests one at a time: %s"
+                                  % (err[:60], irdump.diff_paths(c1, c2)[:4]), case)
         return
     ctx.count("compared")
     c1, _ = irdump.canon(norm_names(irdump.dump_ir(B.m, irdump.IdMap())))
@@ -340,7 +358,31 @@ def labels_between_patches(rng):
     return {"isa": "X64", "ff": "ELF", "text": text, "externs": ["ext_a"], "edits": edits}
 
 
+def refused_at_the_end(rng):
+    """the request that comes last in address order names a symbol that does not exist: apply() carries out the
+    others (calls and returns among them: the return-edge cache is in use) and is refused then"""
+    case = emodify.gen_case(rng, nblocks=rng.randint(2, 6), with_data=False, cfg_domain=True)
+    text = case["text"]
+    code = [i for i, d in enumerate(text) if d["kind"] == "code" and d["insns"]]
+    if not code:
+        return None
+    last = max(code)
+    labels = [y["name"] for d in text if d["kind"] == "code" and d.get("func") is not None for y in d["syms"] if not y.get("at_end")]
+    case["edits"] = [e for e in case["edits"] if e["block"] != last and e.get("all") is None and e.get("fn") is None]
+    first = [i for i in code if i != last and not any(e["block"] == i for e in case["edits"])]
+    if first and labels:
+        case["edits"].append({"op": "insert", "block": rng.choice(first), "off": 0, "asm": "call %s" % rng.choice(labels)})
+    offs = emodify.block_layout(text[last])
+    case["edits"].append({"op": "insert", "block": last, "off": rng.choice(offs[:-1] or [0]), "asm": rng.choice(["call no_such_symbol", "jne no_such_symbol", "leaq no_such_symbol(%rip), %rax"])})
+    rng.shuffle(case["edits"])
+    return case
+
+
 def run(ctx):
+    for _ in range(ctx.budget(40, 800)):
+        case = refused_at_the_end(ctx.rng)
+        if case is not None:
+            check_case(ctx, case)
     for _ in range(ctx.budget(30, 600)):
         check_case(ctx, leftover_empty_block(ctx.rng))
     for _ in range(ctx.budget(30, 600)):
